@@ -30,6 +30,7 @@ inductive Ev
   | dumpDown (srv life : Nat)
   | dumpUp (srv life term role commit applied last leader snapIdx : Nat) (log : List (Nat × Nat × Nat × Nat)) (state : List Nat)
   | leaderCh (srv life : Nat) (last : Option Bool) (isLeader : Bool)
+  | noPreVote (srv : Nat)
   | shutdownHung (srv life : Nat)
 deriving Repr
 
@@ -375,7 +376,10 @@ def configGated (h : List Ev) : Option String :=
 
 def samplesOf (h : List Ev) (srv life : Nat) : List (Nat × Nat × Nat × Nat × Nat) :=   -- (t, term, role, commit, own)
   h.filterMap (fun e => match e with
-    | .sample s l t term role commit _ own _ _ _ _ _ => if s == srv && l == life then some (t, term, role, commit, own) else none
+    -- `own` (first entry of the current term still in the log) is the leader's first own-term entry
+    -- only while the log reaches below it; after compaction it is reported as 0 = unknown
+    | .sample s l t term role commit _ own _ _ _ _ lo =>
+        if s == srv && l == life then some (t, term, role, commit, if lo > 0 && lo < own then own else 0) else none
     | _ => none)
 
 /-- while a server leads term T its commit index never advances onto an index below the first entry
@@ -405,8 +409,10 @@ def leaderStartIndex (h : List Ev) : Option String :=
     already under way, or the one a TimeoutNow request triggers) -/
 def isolatedTermConstant (h : List Ev) : Option String :=
   let idxd := h.zipIdx
+  let exempt (s : Nat) : Bool := h.any (fun e => match e with | .noPreVote x => x == s | _ => false)
   idxd.findSome? (fun (e, i) => match e with
     | .isol srv t1 =>
+        if exempt srv then none else      -- the property speaks about servers with pre-vote enabled
         -- the window ends at the next un-isolation of any server or global heal
         let after := (idxd.filter (fun (_, j) => j > i)).map (·.1)
         let t2 := (after.findSome? (fun x => match x with
